@@ -446,76 +446,115 @@ Proof.
 Qed.
 
 (* ---------- eval ---------- *)
-Definition etotal {A} (x : res A) : Prop :=
-  match x with Ok _ => True | Err (EExpr _) => True | _ => False end.
+(* [NA] says whether the protocol marker ENeedEv may occur: it can only come from EV itself *)
+Definition etotalP (NA : Prop) {A} (x : res A) : Prop :=
+  match x with Ok _ => True | Err (EExpr _) => True | Err (ENeedEv _) => NA | _ => False end.
 
-Lemma eval_loop_total (EV : str -> option str) rec L :
-  (forall x, length x < L -> etotal (rec x)) ->
-  forall s prev opened level result changed,
-    length s <= L ->
-    (forall inner, opened = Some inner -> length inner + length s < L) ->
-    etotal (eval_loop rec s prev opened level result changed).
-Proof.
-  intros Hrec. induction s as [|c t IH]; intros prev opened level result changed HL Hinv; [exact I|].
-  cbn [eval_loop]. cbn [length] in HL.
-  assert (HLt : length t <= L) by lia.
-  destruct (Ascii.eqb c ch_dollar && match t with d :: _ => Ascii.eqb d ch_lparen | [] => false end
-            && negb match prev with Some p => Ascii.eqb p ch_dollar | None => false end).
-  - destruct level.
-    + apply IH; [exact HLt|]. intros inner E. inversion E; subst. cbn [length]. lia.
-    + apply IH; [exact HLt|]. intros inner E. destruct opened as [i0|]; [|discriminate].
-      cbn in E. inversion E; subst. specialize (Hinv i0 eq_refl). cbn [length] in *. lia.
-  - destruct opened as [inner|].
-    + specialize (Hinv inner eq_refl). cbn [length] in Hinv.
-      destruct (Ascii.eqb c ch_lparen).
-      * apply IH; [exact HLt|]. intros i E. inversion E; subst. destruct level; cbn [length]; lia.
-      * destruct (Ascii.eqb c ch_rparen && Nat.ltb 0 level).
-        -- destruct level as [|[|n]].
-           ++ apply IH; [exact HLt|]. intros i E. inversion E; subst. cbn [length]. lia.
-           ++ assert (Hr : etotal (rec (rev inner))). { apply Hrec. rewrite rev_length. lia. }
-              destruct (rec (rev inner)) as [v|e| |]; cbn in Hr; try contradiction.
-              ** apply IH; [exact HLt|]. intros i E. discriminate.
-              ** destruct e; try contradiction. exact I.
-           ++ apply IH; [exact HLt|]. intros i E. inversion E; subst. cbn [length]. lia.
-        -- destruct level.
-           ++ apply IH; [exact HLt|]. intros i E. inversion E; subst. lia.
-           ++ apply IH; [exact HLt|]. intros i E. inversion E; subst. cbn [length]. lia.
-    + apply IH; [exact HLt|]. intros i E. discriminate.
-Qed.
+Section EvalTotal.
+  Variable EV : str -> evr.
+  Variable NA : Prop.
+  Hypothesis HNA : forall s, EV s = EvNeed -> NA.
 
-Lemma eval_rec_total EV : forall fuel b input, length input < fuel -> etotal (eval_rec EV fuel b input).
-Proof.
-  induction fuel as [|fuel IH]; intros b input H; [lia|]. cbn [eval_rec].
-  assert (Hl : etotal (eval_loop (eval_rec EV fuel true) input None None 0 [] false)).
-  { apply (eval_loop_total EV (eval_rec EV fuel true) (length input)).
-    - intros x Hx. apply IH. lia.
-    - lia.
-    - intros i E. discriminate. }
-  destruct (eval_loop (eval_rec EV fuel true) input None None 0 [] false) as [[res ch]|e| |];
-    cbn in Hl; try contradiction.
-  - destruct b; [|exact I]. destruct (EV res); exact I.
-  - destruct e; try contradiction. exact I.
-Qed.
+  Lemma eval_loop_total rec L :
+    (forall x, length x < L -> etotalP NA (rec x)) ->
+    forall s prev opened level result changed,
+      length s <= L ->
+      (forall inner, opened = Some inner -> length inner + length s < L) ->
+      etotalP NA (eval_loop rec s prev opened level result changed).
+  Proof.
+    intros Hrec. induction s as [|c t IH]; intros prev opened level result changed HL Hinv; [exact I|].
+    cbn [eval_loop]. cbn [length] in HL.
+    assert (HLt : length t <= L) by lia.
+    destruct (Ascii.eqb c ch_dollar && match t with d :: _ => Ascii.eqb d ch_lparen | [] => false end
+              && negb match prev with Some p => Ascii.eqb p ch_dollar | None => false end).
+    - destruct level.
+      + apply IH; [exact HLt|]. intros inner E. inversion E; subst. cbn [length]. lia.
+      + apply IH; [exact HLt|]. intros inner E. destruct opened as [i0|]; [|discriminate].
+        cbn in E. inversion E; subst. specialize (Hinv i0 eq_refl). cbn [length] in *. lia.
+    - destruct opened as [inner|].
+      + specialize (Hinv inner eq_refl). cbn [length] in Hinv.
+        destruct (Ascii.eqb c ch_lparen).
+        * apply IH; [exact HLt|]. intros i E. inversion E; subst. destruct level; cbn [length]; lia.
+        * destruct (Ascii.eqb c ch_rparen && Nat.ltb 0 level).
+          -- destruct level as [|[|n]].
+             ++ apply IH; [exact HLt|]. intros i E. inversion E; subst. cbn [length]. lia.
+             ++ assert (Hr : etotalP NA (rec (rev inner))). { apply Hrec. rewrite rev_length. lia. }
+                destruct (rec (rev inner)) as [v|e| |]; cbn in Hr; try contradiction.
+                ** apply IH; [exact HLt|]. intros i E. discriminate.
+                ** destruct e; try contradiction; exact Hr.
+             ++ apply IH; [exact HLt|]. intros i E. inversion E; subst. cbn [length]. lia.
+          -- destruct level.
+             ++ apply IH; [exact HLt|]. intros i E. inversion E; subst. lia.
+             ++ apply IH; [exact HLt|]. intros i E. inversion E; subst. cbn [length]. lia.
+      + apply IH; [exact HLt|]. intros i E. discriminate.
+  Qed.
 
+  Lemma eval_rec_total : forall fuel b input, length input < fuel -> etotalP NA (eval_rec EV fuel b input).
+  Proof.
+    induction fuel as [|fuel IH]; intros b input H; [lia|]. cbn [eval_rec].
+    assert (Hl : etotalP NA (eval_loop (eval_rec EV fuel true) input None None 0 [] false)).
+    { apply (eval_loop_total (eval_rec EV fuel true) (length input)).
+      - intros x Hx. apply IH. lia.
+      - lia.
+      - intros i E. discriminate. }
+    destruct (eval_loop (eval_rec EV fuel true) input None None 0 [] false) as [[res ch]|e| |];
+      cbn in Hl; try contradiction.
+    - destruct b; [|exact I]. destruct (EV res) eqn:E; cbn; try exact I. apply (HNA _ E).
+    - destruct e; try contradiction; exact Hl.
+  Qed.
+
+  Theorem eval_totalP s : etotalP NA (eval EV s).
+  Proof.
+    unfold eval. destruct (contains_dollar_paren s); [|exact I]. apply eval_rec_total. lia.
+  Qed.
+End EvalTotal.
+
+Definition etotal {A} (x : res A) : Prop := etotalP True x.
 Theorem eval_total EV s : etotal (eval EV s).
-Proof.
-  unfold eval. destruct (contains_dollar_paren s); [|exact I]. apply eval_rec_total. lia.
-Qed.
+Proof. apply eval_totalP. intros; exact I. Qed.
+
+(* with the real evalexpr (which always answers) the protocol marker never occurs *)
+Definition ev_real (EV : str -> evr) : Prop := forall s, EV s <> EvNeed.
+Theorem eval_total_real EV s : ev_real EV -> etotalP False (eval EV s).
+Proof. intros H. apply eval_totalP. intros x E. exact (H x E). Qed.
 
 Theorem eval_identity EV s : contains_dollar_paren s = false -> eval EV s = Ok s.
 Proof. intros H. unfold eval. rewrite H. reflexivity. Qed.
 
 (* expand_eval: value or typed error, never Panic/Fuel *)
-Definition xtotal {A} (x : res A) : Prop :=
+Definition xtotalP (NA : Prop) {A} (x : res A) : Prop :=
   match x with Ok _ => True
              | Err (EMissing _ | EUnclosed _ | ECycle _ | EExpr _) => True
+             | Err (ENeedEv _) => NA
              | _ => False end.
 
-Theorem expand_eval_total EV r pol f : xtotal (expand_eval EV r pol f).
+Theorem expand_eval_totalP (EV : str -> evr) (NA : Prop) (r : fenv) pol f :
+  (forall s, EV s = EvNeed -> NA) -> xtotalP NA (expand_eval EV r pol f).
 Proof.
-  unfold expand_eval. pose proof (expand_total r pol f) as H.
+  intros HNA. unfold expand_eval. pose proof (expand_total r pol f) as H.
   destruct (expand r pol f) as [v|e| |]; cbn in *; try contradiction.
-  - pose proof (eval_total EV v) as H2. destruct (eval EV v) as [w|e| |]; cbn in *; try contradiction; try exact I.
-    destruct e; try contradiction; exact I.
+  - pose proof (eval_totalP EV NA HNA v) as H2. destruct (eval EV v) as [w|e| |]; cbn in *; try contradiction; try exact I.
+    destruct e; try contradiction; exact H2.
   - destruct e; try contradiction; exact I.
+Qed.
+
+Theorem expand_eval_total EV (r : fenv) pol f : ev_real EV -> xtotalP False (expand_eval EV r pol f).
+Proof. intros H. apply expand_eval_totalP. intros x E. exact (H x E). Qed.
+
+Theorem expand_eval_total_real : forall EV (r : fenv) pol f, ev_real EV ->
+  match expand_eval EV r pol f with
+  | Ok _ => True
+  | Err (EMissing _ | EUnclosed _ | ECycle _ | EExpr _) => True
+  | _ => False
+  end.
+Proof.
+  intros EV r pol f H. pose proof (expand_eval_total EV r pol f H) as T. unfold xtotalP in T.
+  destruct (expand_eval EV r pol f) as [v|e| |]; [exact T | destruct e; exact T | exact T | exact T].
+Qed.
+
+Theorem eval_total_real' : forall EV s, ev_real EV ->
+  match eval EV s with Ok _ => True | Err (EExpr _) => True | _ => False end.
+Proof.
+  intros EV s H. pose proof (eval_total_real EV s H) as T. unfold etotalP in T.
+  destruct (eval EV s) as [v|e| |]; [exact T | destruct e; exact T | exact T | exact T].
 Qed.
